@@ -70,7 +70,10 @@ impl<T: ArrayValue> Array<T> {
             }
             Ordering::Greater => {
                 if elems.row_count() == 0 {
-                    return Ok(Array::new(elems.shape.clone(), EcoVec::new()));
+                    // There is one result for each cell of the other array's rank
+                    let depth = (elems.rank() - of.rank() + 1).min(elems.rank());
+                    let shape = Shape::from(&elems.shape[..depth]);
+                    return Ok(Array::new(shape, EcoVec::new()));
                 }
                 let mut rows = Vec::with_capacity(elems.row_count());
                 for elem in elems.rows() {
@@ -195,7 +198,10 @@ impl<T: ArrayValue> Array<T> {
             }
             Ordering::Greater => {
                 if needle.row_count() == 0 {
-                    return Ok(Array::new(needle.shape.clone(), EcoVec::new()));
+                    // There is one result for each cell of the haystack's rank
+                    let depth = (needle.rank() - haystack.rank() + 1).min(needle.rank());
+                    let shape = Shape::from(&needle.shape[..depth]);
+                    return Ok(Array::new(shape, EcoVec::new()));
                 }
                 let mut rows = Vec::with_capacity(needle.row_count());
                 for elem in needle.rows() {
